@@ -435,6 +435,66 @@ def load_case(case: dict, d: str, **kw):
     return ta, paths
 
 
+# sub-microsecond resolution: with params.quarter_us the file written for a case holds the case's times divided by 4 (exact binary
+# fractions) and is loaded with HTA_DISABLE_NS_ROUNDING=1, so that the analyses see fractional microseconds.  Frames and time-valued
+# outputs are multiplied by 4 again before they are compared: the models run on the integer case.
+def time_scale(case: dict) -> int:
+    return 4 if case.get("params", {}).get("quarter_us") else 1
+
+
+def set_quarter_us(case: dict) -> None:
+    case.setdefault("params", {})["quarter_us"] = True
+    ep = case.get("epoch", 0)
+    if ep > 10 ** 12:
+        for rk in case["ranks"].values():
+            for e in rk["events"]:
+                if "ts" in e:
+                    e["ts"] -= ep
+        case["epoch"] = 0
+
+
+def quartered(case: dict) -> dict:
+    import copy
+    c = copy.deepcopy(case)
+    for rk in c["ranks"].values():
+        for e in rk["events"]:
+            for k in ("ts", "dur"):
+                if isinstance(e.get(k), int) and not isinstance(e.get(k), bool):
+                    e[k] = e[k] / 4.0
+    return c
+
+
+class resolution:
+    """with fw.resolution(case): ... -- sets HTA_DISABLE_NS_ROUNDING for a quarter-microsecond case."""
+    def __init__(self, case):
+        self.on = time_scale(case) != 1
+
+    def __enter__(self):
+        if self.on:
+            os.environ["HTA_DISABLE_NS_ROUNDING"] = "1"
+        return self
+
+    def __exit__(self, *a):
+        if self.on:
+            os.environ.pop("HTA_DISABLE_NS_ROUNDING", None)
+        return False
+
+
+def load_case_res(case: dict, d: str, **kw):
+    """load_case honouring params.quarter_us (call inside `with fw.resolution(case)`)."""
+    return load_case(quartered(case) if time_scale(case) != 1 else case, d, **kw)
+
+
+def dump_frame_res(case: dict, df, sym_table: List[str]) -> List[dict]:
+    k = time_scale(case)
+    if k != 1:
+        df = df.copy()
+        for c in ("ts", "dur", "end"):
+            if c in df.columns:
+                df[c] = df[c] * k
+    return dump_frame(df, sym_table)
+
+
 # ----------------------------------------------------------------------------- evidence / findings / replay
 def load_known_findings() -> List[dict]:
     p = os.path.join(VERIF, "known_findings.json")
